@@ -16,6 +16,7 @@ CONSTANTS
   Bug_ReuseAfterTornTail = FALSE
   Bug_WriteErrorSwallowed = FALSE
   Bug_ManifestErrorSwallowed = FALSE
+  Bug_FileCounterNotRestored = FALSE
 INVARIANTS Durable RecoveryEnabled CurrentAlwaysValid DiskHoldsAcked
 CONSTRAINT Bound
 CHECK_DEADLOCK FALSE
